@@ -25,7 +25,9 @@ RULE = ("request/reconnect histories (in-order streams through a lossy, duplicat
         "boundary counters; counters relative to the expected one; wrap 255->0; reconnects with channel change; foreign "
         "channel ids) replayed against the real UDPTunnel, DeviceManagement and UDPDeviceManagementConnection over a "
         "stubbed datagram endpoint, each created with route_back False and True, the next connection of the same object "
-        "reached by server disconnect, user disconnect+connect or heartbeat failure; one history = one model line; non-trivial = distinct history with at least one "
+        "reached by server disconnect, user disconnect+connect or heartbeat failure; the cEMI octets of the requests are "
+        "a generator axis (id-tagged 5 octets, empty, one octet, junk, a valid L_Data frame, 250 octets, mixed per "
+        "request) - passed up = the callback received exactly those octets; one history = one model line; non-trivial = distinct history with at least one "
         "delivered frame and one non-delivered request")
 TRUSTED = ["model XknxVerif.Model.SeqRecv is hand-written; tied by replaying generated histories on the real handlers",
            "harness/tstub.py: the asyncio datagram endpoint is replaced by an in-memory object; frames cross it as bytes"]
@@ -37,8 +39,34 @@ IMPLS = {"tunnel": ["tunnel-srv", "tunnel-usr", "tunnel-srv+rb", "tunnel-usr+rb"
          "mgmt": ["handler", "handler-new", "conn-srv", "conn-usr", "conn-srv+rb", "conn-usr+rb"]}
 
 
-def payload(i: int) -> bytes:
+def payload(i: int, mode: str = "id") -> bytes:
+    """cEMI octets of request `i`. The sequencing layer must not care what they parse to (round 3: payload axis)."""
+    kind = mode if mode != "mix" else PL_KINDS[i % len(PL_KINDS)]
+    if kind == "empty":
+        return b""
+    if kind == "one":
+        return bytes((i & 0xFF,))
+    if kind == "junk":      # not a cEMI frame at all (unknown message code, truncated)
+        return bytes((0xEE, 0xFF, i & 0xFF))
+    if kind == "ldata":     # a valid L_Data.ind GroupValueWrite
+        return _ldata(i)
+    if kind == "long":
+        return bytes((0x29, 0x00, (i >> 16) & 0xFF, (i >> 8) & 0xFF, i & 0xFF)) + bytes(245)
     return bytes((0x29, 0x00, (i >> 16) & 0xFF, (i >> 8) & 0xFF, i & 0xFF))
+
+
+PL_KINDS = ["id", "empty", "one", "junk", "ldata", "long"]
+PL_MODES = PL_KINDS + ["mix"]
+
+
+def _ldata(i: int) -> bytes:
+    from xknx.cemi import CEMIFrame, CEMILData, CEMIMessageCode
+    from xknx.dpt import DPTArray
+    from xknx.telegram import GroupAddress, Telegram
+    from xknx.telegram.apci import GroupValueWrite
+    return CEMIFrame(code=CEMIMessageCode.L_DATA_IND, data=CEMILData.init_from_telegram(
+        Telegram(destination_address=GroupAddress("1/2/3"),
+                 payload=GroupValueWrite(DPTArray((i >> 8 & 0xFF, i & 0xFF)))))).to_knx()
 
 
 def unpayload(b: bytes) -> int:
@@ -73,9 +101,12 @@ class Rec:
 
     def __init__(self):
         self.cur = []
+        self.now = None   # (id, octets) of the request being injected
 
     def deliver(self, raw):
-        self.cur.append(("d", unpayload(bytes(raw))))
+        # passed up = the callback got exactly the octets of the request just injected (whatever they parse to)
+        ok = self.now is not None and bytes(raw) == self.now[1]
+        self.cur.append(("d", self.now[0] if ok else -1))
 
     def frame(self, frame, addr):
         b = frame.body
@@ -105,7 +136,7 @@ class Rec:
         return "+".join(sorted(toks)) if toks else "-"
 
 
-async def _run(loop, kind, impl, ch0, events):
+async def _run(loop, kind, impl, ch0, events, pl="id"):
     impl, _, rb = impl.partition("+")
     route_back = rb == "rb"
     rec = Rec()
@@ -144,7 +175,8 @@ async def _run(loop, kind, impl, ch0, events):
             rec.cur = [o for o in rec.cur if o[0] != "x"]  # control frames of the (re)connect itself
 
         def inject(ch, seq, i):
-            t.transport.inject(req_cls(communication_channel_id=ch, sequence_counter=seq, raw_cemi=payload(i)))
+            rec.now = (i, payload(i, pl))
+            t.transport.inject(req_cls(communication_channel_id=ch, sequence_counter=seq, raw_cemi=rec.now[1]))
 
         def expected():
             return t._sequence.expected
@@ -171,7 +203,8 @@ async def _run(loop, kind, impl, ch0, events):
                 dm.start()
 
         def inject(ch, seq, i):
-            tr.inject(req_cls(communication_channel_id=ch, sequence_counter=seq, raw_cemi=payload(i)))
+            rec.now = (i, payload(i, pl))
+            tr.inject(req_cls(communication_channel_id=ch, sequence_counter=seq, raw_cemi=rec.now[1]))
 
         def expected():
             return box["dm"]._sequence.expected
@@ -197,7 +230,8 @@ async def _run(loop, kind, impl, ch0, events):
             rec.cur = [o for o in rec.cur if o[0] != "x"]
 
         def inject(ch, seq, i):
-            c.transport.inject(req_cls(communication_channel_id=ch, sequence_counter=seq, raw_cemi=payload(i)))
+            rec.now = (i, payload(i, pl))
+            c.transport.inject(req_cls(communication_channel_id=ch, sequence_counter=seq, raw_cemi=rec.now[1]))
 
         def expected():
             return c._device_management._sequence.expected
@@ -217,6 +251,7 @@ async def _run(loop, kind, impl, ch0, events):
             inject(ch, seq, i)
             await loop.settle()
             outs.append(rec.take(ack_cls, seq))
+            rec.now = None
     e = expected()
     await finish()
     return ",".join(outs) + f" e={e}"
@@ -225,7 +260,7 @@ async def _run(loop, kind, impl, ch0, events):
 def run_impl(case):
     _, _, kind, ch0, evs = case["op"].split(" ")
     impl = case.get("impl") or IMPLS[kind][0]
-    return vloop.run(_run, kind, impl, int(ch0), evs.split(","))
+    return vloop.run(_run, kind, impl, int(ch0), evs.split(","), case.get("pl", "id"))
 
 
 # ---------------------------------------------------------------------------
@@ -273,7 +308,7 @@ def nontrivial(case, out):
 
 
 def finding_key(case, msg):
-    return case["op"] + "|" + case.get("impl", "")
+    return case["op"] + "|" + case.get("impl", "") + ("|" + case["pl"] if case.get("pl", "id") != "id" else "")
 
 
 def shrink(case, msg):
@@ -327,8 +362,11 @@ class Hist:
         self.ch, self.exp = ch, 0
 
 
-def case(kind, impl, h, ch0):
-    return {"op": f"seqrecv run {kind} {ch0} {','.join(h.evs)}", "impl": impl}
+def case(kind, impl, h, ch0, pl="id"):
+    c = {"op": f"seqrecv run {kind} {ch0} {','.join(h.evs)}", "impl": impl}
+    if pl != "id":
+        c["pl"] = pl
+    return c
 
 
 def channel_stream(rng, h, n, p_loss, p_dup, p_swap, p_stray, foreign):
@@ -371,6 +409,9 @@ def generate(rng, tier):
                 for r in s:
                     h.rel(r)
                 yield case(kind, impl, h, 3)
+                if len(s) <= 3 and impl == impls[0]:   # payload axis on the exhaustive small histories
+                    for pl in PL_MODES[1:]:
+                        yield case(kind, impl, h, 3, pl)
     # (2) the same relative alphabet right before and across the wrap (255 delivered frames first), with a reconnect inside
     for kind in ("tunnel", "mgmt"):
         for impl in IMPLS[kind]:
@@ -385,7 +426,7 @@ def generate(rng, tier):
                 h.connect(201)
                 for r in s:
                     h.rel(r)
-                yield case(kind, impl, h, 200)
+                yield case(kind, impl, h, 200, PL_MODES[(len(h.evs) + sum(s)) % len(PL_MODES)])
     # (2b) round 2: >= 1 accepted frame, a reconnect of the SAME object, then 0,1,stale,2 on the new connection, a second
     #      reconnect, then stale-on-fresh,0,1 - every impl (incl. route_back and heartbeat-failure reconnects)
     for kind in ("tunnel", "mgmt"):
@@ -401,7 +442,8 @@ def generate(rng, tier):
                     h.req(pre - 1)
                     h.connect(11)
                     h.rel(-1); h.rel(0); h.rel(0)
-                    yield case(kind, impl, h, 9)
+                    for pl in (PL_MODES if thorough or pre == 3 else ("id", "mix", "empty")):
+                        yield case(kind, impl, h, 9, pl)
     # (3) faulty-channel streams, long enough to wrap, with reconnects and foreign channels
     n = 3000 if thorough else 80
     for j in range(n):
@@ -416,7 +458,7 @@ def generate(rng, tier):
             channel_stream(rng, h, length, rng.choice([0, .1, .3]), rng.choice([0, .1, .3]),
                            rng.choice([0, .1, .3]), rng.choice([0, .05, .2]),
                            foreign=lambda: rng.choice([h.ch ^ 1, 0, 255, rng.randrange(256)]))
-        yield case(kind, impl, h, ch0)
+        yield case(kind, impl, h, ch0, rng.choice(PL_MODES + ["mix", "mix"]))
     # (4) malformed / adversarial stream: arbitrary counters and channels, boundary values
     m = 2000 if thorough else 60
     bd = [0, 1, 2, 127, 128, 253, 254, 255]
@@ -437,7 +479,7 @@ def generate(rng, tier):
                 h.req(rng.randrange(256))
             else:
                 h.req(rng.choice([h.exp, h.exp - 1, rng.randrange(256)]), rng.choice([h.ch ^ 1, (h.ch + 1) % 256, 0, 255]))
-        yield case(kind, impl, h, ch0)
+        yield case(kind, impl, h, ch0, rng.choice(PL_MODES + ["mix", "mix"]))
 
 
 _old_disable = None
